@@ -260,8 +260,9 @@ PROPS = {
                             "rule_parser.go); the generator's near-miss stream exercises it and the model mirrors it"],
     },
     "C20": {
-        "engines": [{"name": "fault", "script": "tools/faults.py", "quick": 1, "thorough": 1}],
-        "nontrivial": lambda l, v: " none 0 " not in l,
+        "engines": [{"name": "fault", "script": "tools/faults.py", "quick": 1, "thorough": 1},
+                    {"name": "decode", "quick": 9000, "thorough": 400000, "shards": 8, "arg": "bodyerr"}],
+        "nontrivial": lambda l, v: " none 0 " not in l and " err=0" not in l,
         "rule": "fault (strace fault injection, one failure per run, placement verified in the strace log): scripted "
                 "transactions — `spill` (request body 3 writes crossing SecRequestBodyInMemoryLimit so the buffer spills to a "
                 "temp file; RAW processor; RequestBodyReader read back; audit part C), `mem` (all in memory), `upload` (multipart "
@@ -270,7 +271,10 @@ PROPS = {
                 "the transaction's OS thread makes between two sentinels; then one run per (call, errno) with exactly that call "
                 "failing. Observed: panic, which API calls returned an error, REQBODY_ERROR, MULTIPART_STRICT_ERROR, whether "
                 "REQUEST_BODY was populated, error-log lines, files left in the private temp/upload dirs after Close. "
-                "Non-trivial = a fault was actually injected.",
+                "Non-trivial = a fault was actually injected. decode (profile `bodyerr`): JSON bodies nested around "
+                "SecRequestBodyJsonDepthLimit 1/2/3/1024 (trees up to depth 5, too-deep members followed by scalar and container "
+                "siblings) and well-formed/malformed multipart bodies, compared with the JSON/multipart models including "
+                "REQBODY_ERROR — a processing failure that does not surface is a disagreement. Non-trivial there = the error was raised.",
         "modelled": "BodyBuffer.Write/Reader/Reset, the multipart upload loop's file handling, ProcessRequestBody's error path, "
                     "AuditLog()'s body read, Transaction.Close, over an abstract file system with a fault oracle. Not modelled: "
                     "mime/multipart's parsing when a fault corrupts the buffered body text itself (driver answers X: monitor "
@@ -409,7 +413,7 @@ PROPS = {
                 "whitespace/NUL runs, invalid UTF-8 and encoder outputs; tfchain: lists of up to 4 transformations through "
                 "executeTransformations / multiMatch. Non-trivial = the step reported a change or an error; distinct = "
                 "distinct protocol line.",
-        "modelled": "modelled and proved: see lean/Coraza/Model/Transformations.lean, Transformations2.lean, UrlDecodeUni.lean; transformations outside the model "
+        "modelled": "modelled and proved: see lean/Coraza/Model/Transformations.lean, Transformations2.lean, Transformations3.lean, UrlDecodeUni.lean; transformations outside the model "
                     "(or inputs outside a model's fragment, e.g. non-ASCII for lowercase) are covered by the monitor "
                     "predicate only (verdict X): flag soundness, purity, no panic on the observed output.",
         "assumptions": [
